@@ -45,6 +45,9 @@ pub enum TaskKind {
     /// task that does not yield to its runtime until `run`/`run_with_code` has returned on the
     /// system thread (an arbiter stuck in a long synchronous task while the system is stopped)
     BlockUntilRun,
+    /// always runnable (re-wakes itself at every poll, no scheduling point) until `run()` has
+    /// returned: load on a runtime's run queue
+    Spin,
 }
 
 #[derive(Serialize, Deserialize, Clone, Debug, PartialEq)]
@@ -61,6 +64,10 @@ pub enum Op {
     Burst(usize, u8),
     /// another System is created and dropped on a thread of its own while this one lives
     OtherSystem,
+    /// n always-runnable tasks on the system arbiter (more than one run-queue pass of the runtime)
+    SpinBurst(u8),
+    /// `System::current().arbiter().stop()`: the system arbiter's own loop is told to stop
+    StopSysArbiter,
     /// (system thread) drive the system with `block_on` until every arbiter that was registered
     /// when the controller took an Exit has ended its loop
     BlockOnUntilStopped,
@@ -157,11 +164,14 @@ struct State {
     /// the system arbiter's own loop was told to stop (its tasks keep being polled by the system's
     /// LocalSet after that, so "a task runs" no longer implies "the arbiter accepts commands")
     sys_arb_stopped: bool,
+    /// issue number of the first stop() sent to the system arbiter
+    sys_arb_stop_seq: Option<u64>,
     run_returned: bool,
     blocked_until_run: bool,
     /// the system thread sits in `block_on`, waiting for the stop to take effect on the arbiters
     waiting_in_block_on: bool,
     stop_effect_under_block_on: bool,
+    spin_bursts: u32,
     other_systems: u32,
     /// reference model of the system's command channel: what has been sent and not yet taken
     sysq: std::collections::VecDeque<SysCmd>,
@@ -592,8 +602,14 @@ impl Future for TaskFut {
                             }
                         } else {
                             st.sys_arb_stopped = true;
-                            drop(st);
-                            h.stop();
+                            if st.main_thread == Some(me) && st.sys_arb_stop_seq.is_none() {
+                                // sent with the harness lock held: issue order == send order
+                                st.sys_arb_stop_seq = Some(seq);
+                                h.stop();
+                            } else {
+                                drop(st);
+                                h.stop();
+                            }
                         }
                     }
                 }
@@ -648,6 +664,17 @@ impl Future for TaskFut {
                 cx.waker().wake_by_ref();
                 Poll::Pending
             }
+            TaskKind::Spin => {
+                let over = {
+                    let st = sim.st.lock().unwrap();
+                    st.run_returned || st.aborted
+                };
+                if over {
+                    return Poll::Ready(());
+                }
+                cx.waker().wake_by_ref();
+                Poll::Pending
+            }
             _ => Poll::Ready(()),
         }
     }
@@ -674,7 +701,7 @@ fn do_spawn(sim: &Arc<Sim>, arb: usize, kind: TaskKind, via_handle: bool) {
     st.seq += 1;
     let seq = st.seq;
     let id = st.tasks.len();
-    let after_stop = if arb == usize::MAX { false } else { st.arbs[arb].explicit_stop_seq.is_some() };
+    let after_stop = if arb == usize::MAX { st.sys_arb_stop_seq.is_some() } else { st.arbs[arb].explicit_stop_seq.is_some() };
     st.tasks.push(TaskRec {
         arb,
         seq,
@@ -800,6 +827,26 @@ fn exec_op(sim: &Arc<Sim>, op: &Op, runner: Option<&actix_rt::SystemRunner>) {
                 for _ in 0..*count {
                     do_spawn(sim, a, TaskKind::Fut, true);
                 }
+            }
+        }
+        Op::SpinBurst(n) => {
+            for _ in 0..*n {
+                do_spawn(sim, usize::MAX, TaskKind::Spin, true);
+            }
+            sim.st.lock().unwrap().spin_bursts += 1;
+        }
+        Op::StopSysArbiter => {
+            if let Some(sys) = System::try_current() {
+                let mut st = sim.st.lock().unwrap();
+                st.seq += 1;
+                let seq = st.seq;
+                st.sys_arb_stopped = true;
+                // sent with the harness lock held: issue order == send order
+                let ok = sys.arbiter().stop();
+                if ok && st.sys_arb_stop_seq.is_none() {
+                    st.sys_arb_stop_seq = Some(seq);
+                }
+                evpush(&mut st.events, format!("stop the system arbiter -> {ok}"));
             }
         }
         Op::OtherSystem => {
@@ -1231,13 +1278,12 @@ fn gen_ops(rng: &mut Rng, n: usize, main: bool, c10: bool) -> Vec<Op> {
                     Op::BlockOn(rng.range(0, 2) as u8, rng.range(0, 5) as i32)
                 }
             }
-            13 => {
-                if rng.chance(1, 3) {
-                    Op::OtherSystem
-                } else {
-                    Op::Nop
-                }
-            }
+            13 => match rng.below(9) {
+                0..=2 => Op::OtherSystem,
+                3 => Op::SpinBurst(*rng.pick(&[70u8, 100])),
+                4 => Op::StopSysArbiter,
+                _ => Op::Nop,
+            },
             12 => {
                 if rng.chance(1, 3) {
                     Op::Burst(rng.usize_below(3), *rng.pick(&[5u8, 17, 40, 40, 135]))
@@ -1316,10 +1362,12 @@ impl Engine for RtSim {
                 loop_ended: Vec::new(),
                 refused_before_join: false,
                 sys_arb_stopped: false,
+                sys_arb_stop_seq: None,
                 run_returned: false,
                 blocked_until_run: false,
                 waiting_in_block_on: false,
                 stop_effect_under_block_on: false,
+                spin_bursts: 0,
                 other_systems: 0,
                 sysq: Default::default(),
                 registered: Vec::new(),
@@ -1387,6 +1435,12 @@ impl Engine for RtSim {
         if st.blocked_until_run && st.run_returned {
             ctx.bump("probe.arbiter_blocked_across_stop");
         }
+        if st.spin_bursts > 0 {
+            ctx.bump("probe.system_thread_run_queue_loaded");
+        }
+        if st.tasks.iter().any(|t| t.arb == usize::MAX && t.after_explicit_stop) {
+            ctx.bump("probe.task_sent_to_stopped_system_arbiter");
+        }
         if st.other_systems > 0 && st.arbs.len() >= 2 {
             ctx.bump("probe.other_system_between_arbiters");
         }
@@ -1443,9 +1497,9 @@ impl Engine for RtSim {
     }
     fn required_probes(prop: &str, _tier: Tier) -> Vec<&'static str> {
         if prop == "C09" {
-            vec!["probe.second_stop", "probe.arbiter_struct_dropped", "probe.arbiter_stopped_early", "fault.busy_arbiter", "probe.arbiter_blocked_across_stop", "probe.second_exit_processed", "probe.other_system_between_arbiters", "probe.stop_took_effect_under_block_on"]
+            vec!["probe.second_stop", "probe.arbiter_struct_dropped", "probe.arbiter_stopped_early", "fault.busy_arbiter", "probe.arbiter_blocked_across_stop", "probe.second_exit_processed", "probe.other_system_between_arbiters", "probe.stop_took_effect_under_block_on", "probe.system_thread_run_queue_loaded"]
         } else {
-            vec!["probe.task_sent_after_stop", "probe.marker_via_current", "fault.task_panic", "probe.prior_system_on_thread", "probe.spawn_refused_before_join"]
+            vec!["probe.task_sent_after_stop", "probe.marker_via_current", "fault.task_panic", "probe.prior_system_on_thread", "probe.spawn_refused_before_join", "probe.task_sent_to_stopped_system_arbiter"]
         }
     }
 }
